@@ -64,6 +64,20 @@ func c18Long(c *Ctx, i int, r *gen.R) {
 func c18AllRunes(c *Ctx, i int, r *gen.R) {
 	n := 0
 	for cp := rune(i * 1024); cp < rune((i+1)*1024); cp++ {
+		// the code point as a RUNE ITEM (surrogate values included: a rune item need not be a character): whatever
+		// text the cell reads for it, its lines, height and width belong to that text
+		{
+			cell := tabular.NewCell(cp)
+			text := cell.String()
+			if h, nl := cell.Height(), len(cell.Lines()); h != nl {
+				c.Rec.Violate("Cell.Height!=len(Lines):rune-item", fmt.Sprintf("cell of the rune item %#x (text %q): Height()=%d but len(Lines())=%d", cp, text, h, nl), map[string]interface{}{"rune_item": fmt.Sprintf("%#x", cp)})
+				return
+			}
+			if w, want := cell.TerminalCellWidth(), length.LongestLineCells(text); w != want {
+				c.Rec.Violate("Cell.Width!=LongestLineCells:rune-item", fmt.Sprintf("cell of the rune item %#x reads %q: TerminalCellWidth()=%d but its longest line measures %d", cp, text, w, want), map[string]interface{}{"rune_item": fmt.Sprintf("%#x", cp)})
+				return
+			}
+		}
 		if cp >= 0xD800 && cp <= 0xDFFF {
 			continue // surrogates are not scalar values; as bytes they are invalid UTF-8, which the other phases cover
 		}
